@@ -19,6 +19,7 @@ from vf.props import mbi_gen as G
 from vf.refs import mbi_rom
 
 ID = "C01"
+ROTATING_PKI = 0.3  # fraction of the key / certificate paths that are rotating slots (vf/pki.py)
 LEVEL = "exploration"
 TECHNIQUE = ("runtime monitoring: round-trip oracle from the inputs + independent header-word decoder + "
              "stage-pair (revert) monitor on the export/parse pipeline + CLI path via CliRunner")
